@@ -15,6 +15,9 @@ import (
 // Workers are sub-process entry points: vcheck worker <name> args...
 var Workers = map[string]func(args []string) int{}
 
+// WorkerExe names, per worker name, another binary of this harness to run that worker of (default: this executable).
+var WorkerExe = map[string]string{}
+
 // WorkerResult is what a child process left behind.
 type WorkerResult struct {
 	Lines    []string // stdout lines
@@ -46,6 +49,9 @@ func runWorkerOnce(name string, args []string, in []byte, hasIn bool, env []stri
 	self, err := os.Executable()
 	if err != nil {
 		return WorkerResult{Err: err, ExitCode: -1}, false
+	}
+	if exe := WorkerExe[name]; exe != "" {
+		self = exe
 	}
 	cmd := exec.Command(self, append([]string{"worker", name}, args...)...)
 	cmd.Env = append(os.Environ(), env...)
